@@ -687,7 +687,9 @@ def run_histories(ctx: Ctx, n_per_conf: int, store: dict, kseeds=()):
 def prepare(ctx: Ctx):
     _RUN.clear()
     _RUN["table"] = _table()
-    run_histories(ctx, ctx.budget(2, 12), _RUN, kseeds=(0, 99999) if ctx.thorough else ())
+    # the forced-kernel-seed probe (every `self.rng.randint(1e5)` replaced by 0 / 99999, the ends of its range) is part of
+    # every tier: a kernel seed treated specially (`seed or …`, `if seed > 0: srand(seed)`) shows at 1e-5 per frame otherwise
+    run_histories(ctx, ctx.budget(2, 12), _RUN, kseeds=(0, 99999))
 
 
 # --------------------------------------------------------------------------------------------------
@@ -983,7 +985,7 @@ def oracle(ctx: Ctx, deep: bool = False):
     store = _RUN
     if deep or "histories" not in store:
         store = {"table": _table()}
-        run_histories(ctx, 4 if deep else ctx.budget(2, 12), store, kseeds=(0, 99999, 1) if deep else ())
+        run_histories(ctx, 4 if deep else ctx.budget(2, 12), store, kseeds=(0, 99999, 1) if deep else (0, 99999))
     table = store["table"]
     for hg in store.get("hangs", []):
         if hg.get("crash"):
